@@ -328,7 +328,9 @@ def boot_lines(events, obs):
         lines.append("bt-ev " + e)
         lines += ["bt-ob " + o for o in ol]
     mi = len(lines)
-    lines += ["mon-boot 0", "mon-boot 1"]
+    # mon-boot-bytes: every ok payload is a packet completed by that dataReceived in the parse of ALL the bytes received
+    # (Afkak/BrokerClientBytes.lean, Boot; proved of the model: C06_bootstrap_bytes)
+    lines += ["mon-boot 0", "mon-boot 1", "mon-boot-bytes", "mon-model-boot-bytes"]
     return lines, idx, mm, mi
 
 
@@ -356,8 +358,10 @@ def boot_check(ctx, res, scs):
                 break
         if dis:
             res.disagreements.append(dis)
-        elif got[base + mm] != ["ok"]:
-            res.disagreements.append({"component": "monitor(bootstrap) rejects the MODEL's own trace", "scenario": events, "impl": None, "model": got[base + mm]})
+        elif got[base + mm] != ["ok"] or got[base + mi + 3] != ["ok"]:
+            res.disagreements.append({"component": "monitor(bootstrap) rejects the MODEL's own trace", "scenario": events, "impl": None, "model": [got[base + mm], got[base + mi + 3]]})
+        if got[base + mi] == ["ok"] and got[base + mi + 2] != ["ok"] and not any("bootstrap-rawbytes" in f["tags"] for f in res.monitor_failures):
+            res.monitor_failures.append({"what": "bootstrap connection (raw bytes): a Deferred fired with bytes that are no packet completed by this dataReceived in the parse of all the bytes the connection received", "scenario": {"events": events, "obs": obs, "verdict": got[base + mi + 2]}, "tags": ["bootstrap-rawbytes"]})
         if got[base + mi] != ["ok"]:
             w = got[base + mi][0].split() if got[base + mi] else []
             at = int(w[1]) if len(w) == 2 and w[0] == "fail" and w[1].isdigit() else -1
@@ -555,7 +559,7 @@ def run(ctx, res):
         "broker client: scenarios generated ONLINE against the real _KafkaBrokerClient (the generator plays broker and network): 1-6 ids, "
         "replies in any order, duplicate/unsolicited/short/oversize frames, byte stream cut anywhere, cancel/disconnect/close/updateMetadata/"
         "write-failure interleaved, drops at any point, connect failures and back-off; plus bounded-exhaustive enumeration of the reachable "
-        "states with a 19-symbol alphabet over two ids (every transition from every state reachable within the depth). Compared per event: "
+        "states with a 29-symbol alphabet over two ids (header-only response included) (every transition from every state reachable within the depth). Compared per event: "
         "observations (strict order) and the internal state (white box); every recorded trace is also cut into per-connection byte logs by the Lean fold of Afkak/BrokerClientBytes.lean (whole-stream parse per connection, mon-bytes) and those logs are compared with the driver's own record of the bytes each connection's transport was handed. non-trivial (C06) = at least one reply delivered AND one of "
         "{cancel fired, unknown id, partial frame, several replies in one chunk, connection dropped, close with pending, short frame}. "
         "framing: random frame lists cut at random positions (thorough: ALL cut sets of short streams) fed to the real KafkaProtocol / "
